@@ -205,6 +205,9 @@ class IcStream(Stream):
             u = [[z.real, z.imag] for z in (rand_dyadic(rng, 16, 16) for _ in range(N))]
             dd = [[z.real, z.imag] for z in (rand_dyadic(rng, 16, 16) for _ in range(M))]
             descs.append({"A": A, "B": B, "batched": batched, "u": u, "d": dd})
+            if rng.random() < 0.3:
+                # the SAME first operand has met another partner before (nothing may be remembered between calls)
+                descs[-1]["B0"] = [rand_slice(rng, K, M, False) for _ in range(ns)]
         return descs
 
     def run(self, d):
@@ -213,6 +216,11 @@ class IcStream(Stream):
         u = np.array([complex(*x) for x in d["u"]], complex)
         dd = np.array([complex(*x) for x in d["d"]], complex)
         K = d["A"][0]["M"]
+        if d.get("B0"):
+            try:
+                A.int_complete(build(d["B0"], d["batched"]), u, dd)
+            except Exception:
+                pass
         try:
             uo, do = A.int_complete(B, u, dd)
             uo, do = np.asarray(uo), np.asarray(do)
